@@ -658,6 +658,14 @@ pub fn gen_jpeg(rng: &mut Rng, existing: Option<&Store>) -> Asset {
         let k = rng.range(1, 50) as usize;
         meta.push(jpeg_seg(0xE2, &rng.bytes(k)));
     }
+    // CIPA DC-007 multi-picture format: APP2 "MPF\0" index + further images after the first EOI
+    let mpf = rng.chance(1, 8);
+    if mpf {
+        let mut c = b"MPF\0".to_vec();
+        c.extend_from_slice(&[0x4d, 0x4d, 0, 0x2a, 0, 0, 0, 8, 0, 1, 0xb0, 0, 0, 7, 0, 0, 0, 4, b'0', b'1', b'0', b'0', 0, 0, 0, 0]);
+        meta.push(jpeg_seg(0xE2, &c));
+        desc.push_str("+mpf+trailing");
+    }
     if let Some(s) = existing {
         let at = rng.below(meta.len() as u64 + 1) as usize;
         let chunk = if rng.chance(1, 3) { 40 } else { 64000 };
@@ -702,7 +710,16 @@ pub fn gen_jpeg(rng: &mut Rng, existing: Option<&Store>) -> Asset {
         }
     }
     b.extend_from_slice(&[0xFF, 0xD9]);
-    if rng.chance(1, 5) {
+    if mpf {
+        // second image of the multi-picture file: a complete JPEG after the first EOI
+        b.extend_from_slice(&[0xFF, 0xD8]);
+        b.extend_from_slice(&jpeg_seg(0xDB, &dqt));
+        b.extend_from_slice(&jpeg_seg(0xC0, &[8, 0, 4, 0, 4, 1, 1, 0x11, 0]));
+        b.extend_from_slice(&jpeg_seg(0xDA, &[1, 1, 0, 0, 63, 0]));
+        let k = rng.range(1, 30) as usize;
+        b.extend(rng.bytes(k).into_iter().map(|x| if x == 0xFF { 0xFE } else { x }));
+        b.extend_from_slice(&[0xFF, 0xD9]);
+    } else if rng.chance(1, 5) {
         let k = rng.range(1, 40) as usize;
         b.extend_from_slice(&rng.bytes(k));
         desc.push_str("+trailing");
@@ -811,6 +828,11 @@ pub fn riff_chunk(id: &[u8; 4], data: &[u8]) -> Vec<u8> {
 
 pub fn gen_riff(rng: &mut Rng, existing: Option<&Store>) -> Asset {
     let kind = rng.below(3);
+    gen_riff_kind(rng, existing, kind)
+}
+
+/// `kind`: 0 wav, 1 webp, 2 avi.
+pub fn gen_riff_kind(rng: &mut Rng, existing: Option<&Store>, kind: u64) -> Asset {
     let (fmt, form): (&'static str, &[u8; 4]) = match kind {
         0 => ("wav", b"WAVE"),
         1 => ("webp", b"WEBP"),
